@@ -4,6 +4,7 @@ package main
 // branch, inlined call and potential panic can fork the path.
 
 import (
+	"sort"
 	"fmt"
 	"go/ast"
 	"go/token"
@@ -266,6 +267,15 @@ func (ex *Exec) assignStmt(st *State, s *ast.AssignStmt, k func(*State)) {
 					rec(st, i+1)
 				})
 				return
+			}
+			if ix, ok := lhs.(*ast.IndexExpr); ok {
+				if bid, ok := ast.Unparen(ix.X).(*ast.Ident); ok {
+					ex.assign(st, lhs, vals[i], func(st *State) {
+						ex.afterStore(st, bid)
+						rec(st, i+1)
+					})
+					return
+				}
 			}
 			ex.assign(st, lhs, vals[i], func(st *State) { rec(st, i+1) })
 		}
@@ -1145,6 +1155,10 @@ func (ex *Exec) loop(st *State, lp *loopParts, k func(*State)) {
 				continue
 			}
 			if id, ok := an.Ghost.LHS.(*SIdent); ok {
+				// only anchors whose site lies inside this loop can run during its iterations
+				if pos, found := ex.anchorSite(an); found && lp.stmt != nil && (pos < lp.stmt.Pos() || pos >= lp.stmt.End()) {
+					continue
+				}
 				if cur, has := st.frame.ghost[id.Name]; has && !strings.HasPrefix(cur.T, "g_loop_ghost_") {
 					st.frame.ghost[id.Name] = Val{T: ex.w.freshConst("loop_ghost_"+id.Name, cur.S), S: cur.S, Go: cur.Go}
 				}
@@ -1268,6 +1282,73 @@ func (ex *Exec) loop(st *State, lp *loopParts, k func(*State)) {
 	default:
 		runBody(st)
 	}
+}
+
+// anchorSite: source position of the statement or call an anchored clause is attached to (the
+// same ordinal rules as afterAssign / afterStore / afterSend / callAnchor); false when it cannot
+// be located statically.
+func (ex *Exec) anchorSite(an *Anchored) (token.Pos, bool) {
+	var sites []token.Pos
+	ast.Inspect(ex.top.Decl.Body, func(n ast.Node) bool {
+		switch x := n.(type) {
+		case *ast.AssignStmt:
+			for _, l := range x.Lhs {
+				if lid, ok := l.(*ast.Ident); ok && an.Callee == "="+lid.Name {
+					sites = append(sites, lid.Pos())
+				}
+				if ix, ok := l.(*ast.IndexExpr); ok {
+					if lid, ok := ast.Unparen(ix.X).(*ast.Ident); ok && an.Callee == "[]="+lid.Name {
+						sites = append(sites, lid.Pos())
+					}
+				}
+			}
+		case *ast.SendStmt:
+			if an.Callee == "send" {
+				sites = append(sites, x.Pos())
+			}
+		case *ast.CallExpr:
+			if calleeName(x) == an.Callee {
+				sites = append(sites, x.Pos())
+			}
+		}
+		return true
+	})
+	sort.Slice(sites, func(i, j int) bool { return sites[i] < sites[j] })
+	if an.Ord < 0 || an.Ord >= len(sites) {
+		return token.NoPos, false
+	}
+	return sites[an.Ord], true
+}
+
+// afterStore runs `after store NAME[k]:` anchored clauses (k-th statement `NAME[...] = v` in the
+// source of the function under verification).
+func (ex *Exec) afterStore(st *State, id *ast.Ident) {
+	if st.frame.fi != ex.top || st.frame.closure != nil || ex.top.Spec == nil || len(ex.top.Spec.Anchors) == 0 {
+		return
+	}
+	has := false
+	for _, an := range ex.top.Spec.Anchors {
+		if an.Callee == "[]="+id.Name {
+			has = true
+		}
+	}
+	if !has {
+		return
+	}
+	ord := 0
+	ast.Inspect(ex.top.Decl.Body, func(n ast.Node) bool {
+		if as, ok := n.(*ast.AssignStmt); ok {
+			for _, l := range as.Lhs {
+				if ix, ok := l.(*ast.IndexExpr); ok {
+					if lid, ok := ast.Unparen(ix.X).(*ast.Ident); ok && lid.Name == id.Name && lid.Pos() < id.Pos() {
+						ord++
+					}
+				}
+			}
+		}
+		return true
+	})
+	ex.runAnchors(st, "after", "[]="+id.Name, ord)
 }
 
 // afterAssign runs `after assign NAME[k]:` anchored clauses (k-th assignment to NAME in the source
